@@ -474,9 +474,18 @@ func NonGreedyLexerWith(r *rng.R, interplay bool) (*lexspec.Spec, Alphabet) {
 	nNG := r.Range(1, 2)
 	for k := 0; k < nNG; k++ {
 		open := opener[k]
-		alpha = append(alpha, open)
+		nested := interplay && k == 1 && r.Chance(1, 2)
+		if nested {
+			// the second non-greedy rule's prefix extends the first one's
+			// ('<' and '<<'): both repetitions run at the same time
+			open = opener[0]
+		} else {
+			alpha = append(alpha, open)
+		}
 		var p lexspec.Rx = lexspec.Lit{S: []rune{open}}
-		if r.Chance(1, 3) {
+		if nested {
+			p = lexspec.Lit{S: []rune{open, open}}
+		} else if r.Chance(1, 3) {
 			p = lexspec.Cat{Parts: []lexspec.Rx{lexspec.Lit{S: []rune{open}}, lexspec.Class{Items: []lexspec.Item{{Lo: body[0], Hi: body[0]}}}}}
 		}
 		var b lexspec.Rx
